@@ -17,7 +17,7 @@ from plugins import StdFunction, StdVector, StdArray, Sync, Chrono, StringStream
 TU = 'modules/eventx/work_thread.cpp'
 C = 'tbox::eventx::WorkThread::'
 P = 'eventx_WorkThread_'
-R = {P + 'cancel': 'WT_cancel', P + 'popOneTask': 'WT_popOneTask', P + 'threadProc': 'WT_threadProc', P + 'cleanup': 'WT_cleanup', P + 'shouldThreadExitWaiting': 'WT_shouldExit',
+R = {P + 'execute__tbox_eventx_WorkThread_NonReturnFuncrr_tbox_eventx_WorkThread_NonReturnFuncrr_event_Loopp': 'WT_execute', P + 'cancel': 'WT_cancel', P + 'popOneTask': 'WT_popOneTask', P + 'threadProc': 'WT_threadProc', P + 'cleanup': 'WT_cleanup', P + 'shouldThreadExitWaiting': 'WT_shouldExit',
      'event_Loop_runInLoop__Ktbox_event_Loop_Funcr_Kstd_stringr': 'Loop_runInLoop_c', 'event_Loop_runInLoop__tbox_event_Loop_Funcrr_Kstd_stringr': 'Loop_runInLoop_m',
      'cabinet_Token_ctor__Ktbox_cabinet_Tokenr': 'Token_copy'}
 EARLY = 'struct v_Loop { char opaque; };\n#define V_EQ_cabinet_Token(a, b) ((a)->id_ == (b)->id_ && (a)->pos_ == (b)->pos_)    /* Token::operator== (cabinet_token.h:43,47) */\n'
@@ -147,6 +147,28 @@ __CPROVER_loop_invariant(self->d_ == g_d0 && self->d_->lock.held == 1 && __exc =
 __CPROVER_decreases(Q(self->d_).size)
 """,
 })
+# ---------------------------------------------------------------- submission
+EXTERN_S = EXTERN_COMMON + r"""
+void v_q_hook(const void *v, int op) { if (op == 1) __CPROVER_assert(g_tp->d_->lock.held == 1 && g_cab_allocs == 1, "the queue grows only under the lock, by the token just issued"); }
+Task *v_pool__alloc(struct v_pool *p) __CPROVER_requires(g_tp->d_->lock.held == 1 && g_allocs == 0) __CPROVER_assigns(g_allocs) __CPROVER_ensures(g_allocs == 1 && __CPROVER_return_value == g_item);
+Token v_taskcab__alloc(struct v_taskcab *c, Task *t) __CPROVER_requires(g_tp->d_->lock.held == 1 && t == g_item && g_cab_allocs == 0) __CPROVER_assigns(g_cab_allocs)
+  __CPROVER_ensures(g_cab_allocs == 1 && __CPROVER_return_value.id_ == g_tok.id_ && __CPROVER_return_value.pos_ == g_tok.pos_);
+"""
+SPEC_S = dict(GUARD)
+SPEC_S.update({
+    ('prelude_early',): EARLY + 'void v_q_hook(const void *v, int op);\n#undef V_ABS_HOOK\n#define V_ABS_HOOK(v, op) v_q_hook((const void *)(v), op)\n',
+    ('prelude',): PRELUDE.replace('g_cab_frees,', 'g_cab_frees, g_allocs, g_cab_allocs,') + 'static Task *g_item;\n', ('after_protos',): EXTERN_S,
+    ('contract', 'WT_execute'): r"""
+__CPROVER_requires(__CPROVER_is_fresh(self, sizeof(*self)) && (self->d_ == 0 || __CPROVER_is_fresh(self->d_, sizeof(Data))) && __CPROVER_is_fresh(backend_task, sizeof(*backend_task)) && __CPROVER_is_fresh(main_cb, sizeof(*main_cb)) && __CPROVER_is_fresh(g_item, sizeof(Task)))
+__CPROVER_requires(self->d_ != 0 ==> (self->d_->lock.held == 0 && Q(self->d_).size < V_MAXSZ - 1) && g_tok.id_ != 0)
+__CPROVER_assigns(g_tp, g_allocs, g_cab_allocs, v_noblock_mutex, *g_item, *backend_task, *main_cb, v_vec_cabinet_Token_cell; self->d_ != 0: self->d_->lock.held, Q(self->d_).size)
+__CPROVER_ensures(self->d_ == 0 ==> (__CPROVER_return_value.id_ == 0 && g_allocs == 0))                     /* after cleanup: refused with a null token, nothing queued */
+__CPROVER_ensures(self->d_ != 0 ==> (self->d_->lock.held == 0 && g_allocs == 1 && g_cab_allocs == 1 && Q(self->d_).size == __CPROVER_old(Q(self->d_).size) + 1 &&
+                  __CPROVER_return_value.id_ == g_tok.id_ && __CPROVER_return_value.pos_ == g_tok.pos_ && g_item->token.id_ == g_tok.id_ && g_item->token.pos_ == g_tok.pos_ &&
+                  g_item->main_loop == (main_loop != 0 ? main_loop : self->d_->default_main_loop)))         /* one record, one token (returned and stored in the record), queued once at the back */
+""",
+    ('ghost', 'WT_execute', 'entry'): 'g_tp = self; g_allocs = 0; g_cab_allocs = 0; v_noblock_mutex = 0;',
+})
 ST_W = ['v_set__insert', 'v_set__erase', 'v_pool__free', 'v_cv_wait', 'v_fn_call__void', 'Loop_runInLoop_c', 'Loop_runInLoop_m', 'WT_popOneTask']
 H = lambda body: '\nvoid H(void)\n{\n  __CPROVER_assert(sizeof(struct cabinet_Token) == 16, "token layout the byte tracker relies on");\n' + body + '\n  __CPROVER_assert(0, "VACUITY-CANARY");\n}\n'
 def COMMON(abstract_q): return dict(tu=TU, filter='tbox::eventx', more_filters=[(TU, 'cabinet::Token'), (TU, 'tbox::event')], rename=R,
@@ -162,6 +184,9 @@ UNITS = [
              clause='worker: stop flag examined under the lock after each wake-up; no task taken once it is seen; body once, outside the lock, between register/unregister; completion posted after the body; record returned under the lock'),
       Target('cleanup', H('  WT *p; WT_cleanup(p);'), enforce='WT_cleanup', replace=['v_taskcab__free', 'v_pool__free', 'v_thread_join'], timeout=600,
              clause='cleanup: every waiting task dropped exactly once under the lock, stop flag raised under the lock, the worker joined with the lock free, data released; idempotent')], **COMMON(True)),
+  UnitSpec(name='work_thread_submit', spec=SPEC_S, emit=[C + 'execute'], targets=[
+      Target('execute', H('  WT *p; struct v_function *b, *m; struct v_Loop *l; WT_execute(p, b, m, l);'), enforce='WT_execute', replace=['v_pool__alloc', 'v_taskcab__alloc'], timeout=600,
+             clause='execute: one task record, one token (returned and stored), queued exactly once at the back, all under the lock; refused after cleanup')], **COMMON(True)),
 ]
 REPLAY_SOURCES = ['modules/eventx/work_thread.cpp']
 def native_replay(u, t, o, w, workdir):
